@@ -675,7 +675,7 @@ def stage_trees(ctx):
             ctx.explored += 1
             if abs(gi - gpy) > 1e-9 * max(abs(gpy), 1e-300):
                 ctx.violation("tree:guess", "guess of a derived prior != the expression applied to the base guesses",
-                              dict(kind="direct-tree-guess", **meta, impl=gi, expected=gpy))
+                              dict(meta, kind="direct-tree-guess", impl=gi, expected=gpy))
             exprs.append("match elab QO (tab2 %s) (trtab %s) %s with Ok e => qclose T9 (guess QO (tab2 %s) (trtab %s) (envof %s) e) %s "
                          "| Err _ => false end" % (pwlit(rec), trlit(rec), sl, pwlit(rec), trlit(rec), qlist(genv), qlit(gi)))
             metas.append(dict(meta, what="guess", impl=gi))
@@ -711,7 +711,7 @@ def stage_trees(ctx):
             shape_ok = (np.ndim(v) == 0) if size is None else (np.shape(v) == (size,))
             if not shape_ok or any(abs(a - b) > 1e-9 * max(abs(b), 1e-300) for a, b in zip(vi, exp)):
                 ctx.violation("tree:sample", "sample of a derived prior != the expression applied to the base samples",
-                              dict(kind="direct-tree-sample", **meta, seed=seed, size=size, impl=vi, expected=exp))
+                              dict(meta, kind="direct-tree-sample", seed=seed, size=size, impl=vi, expected=exp))
             if size is None:
                 e_s = "qclose T9 (fst (sample1 QO (tab2 %s) (trtab %s) e %s)) %s" % (pwlit(rec), trlit(rec), qlist(cols[0]), qlit(vi[0]))
             else:
